@@ -349,6 +349,11 @@ fn autolink_delim(data: &[u8], mut link_end: usize, relaxed_autolinks: bool) -> 
         }
     }
 
+    // Numbers of opening and closing brackets in `data[..link_end]`, per kind
+    // of bracket, counted once: the characters this loop removes from the end
+    // are never brackets except for the closing one handled below.
+    let mut counts: [Option<(usize, usize)>; 3] = [None; 3];
+
     while link_end > 0 {
         let cclose = data[link_end - 1];
 
@@ -384,20 +389,29 @@ fn autolink_delim(data: &[u8], mut link_end: usize, relaxed_autolinks: bool) -> 
                 link_end -= 1;
             }
         } else if let Some(copen) = copen {
-            let mut opening = 0;
-            let mut closing = 0;
-            for &b in data.iter().take(link_end) {
-                if b == copen {
-                    opening += 1;
-                } else if b == cclose {
-                    closing += 1;
+            let kind = match cclose {
+                b')' => 0,
+                b']' => 1,
+                _ => 2,
+            };
+            let (opening, closing) = *counts[kind].get_or_insert_with(|| {
+                let mut opening = 0;
+                let mut closing = 0;
+                for &b in data.iter().take(link_end) {
+                    if b == copen {
+                        opening += 1;
+                    } else if b == cclose {
+                        closing += 1;
+                    }
                 }
-            }
+                (opening, closing)
+            });
 
             if closing <= opening {
                 break;
             }
 
+            counts[kind] = Some((opening, closing - 1));
             link_end -= 1;
         } else {
             break;
